@@ -1,5 +1,6 @@
 //! C20 ops: AES-CBC / AES-CTR through the public API `AES::encrypt` / `AES::decrypt`.
 //!   aes.encrypt <mode> <key> <iv> <data>     aes.decrypt <mode> <key> <iv> <data>
+//!   aes.encrypt_impl / aes.decrypt_impl: the same through the public `AES::encrypt_impl` / `AES::decrypt_impl`
 //!   aes.roundtrip <mode> <key> <iv> <msg>   encrypt, then decrypt the result: `OK:<ct>;<decrypt outcome>` or `ERR`
 //! mode is one of 128cbc 256cbc 128ctr 256ctr; key/iv/data are argument descriptors.
 //! Output: `OK:<show_bytes>` or `ERR` (a panic is caught by the driver loop and reported as PANIC).
@@ -17,7 +18,7 @@ fn algo(s: &str) -> Option<AESAlgorithms> {
 }
 
 pub fn run(op: &str, args: &[String]) -> Option<String> {
-    if op != "aes.encrypt" && op != "aes.decrypt" && op != "aes.roundtrip" {
+    if !matches!(op, "aes.encrypt" | "aes.decrypt" | "aes.roundtrip" | "aes.encrypt_impl" | "aes.decrypt_impl") {
         return None;
     }
     if args.len() != 4 {
@@ -36,7 +37,12 @@ pub fn run(op: &str, args: &[String]) -> Option<String> {
             Err(_) => "ERR".into(),
         });
     }
-    let r = if op == "aes.encrypt" { AES::encrypt(&key, &iv, &data, a) } else { AES::decrypt(&key, &iv, &data, a) };
+    let r = match op {
+        "aes.encrypt" => AES::encrypt(&key, &iv, &data, a),
+        "aes.encrypt_impl" => AES::encrypt_impl(&key, &iv, &data, a),
+        "aes.decrypt_impl" => AES::decrypt_impl(&key, &iv, &data, a),
+        _ => AES::decrypt(&key, &iv, &data, a),
+    };
     Some(match r {
         Ok(v) => format!("OK:{}", show_bytes(&v)),
         Err(_) => "ERR".into(),
